@@ -1267,14 +1267,15 @@ def _execute_stepwise(run):
             if c["layout"] > 1e-5:
                 run.probe("stepwise_layout_sensitive")
             for i in range(ratio.numel()):
-                if not abs(float(ratio[i]) - 1.0) <= 1e-5 + ulp:
+                if not abs(float(ratio[i]) - 1.0) <= 1e-4 + ulp:
                     run.violate(scope, "stepwise_ppo_ratio", f"update {b} (batch_idx {b}), first mini-batch, row {i}: "
                                 f"probability ratio {float(ratio[i])!r} before any optimizer step of this update (log-prob "
                                 f"stored at rollout {float(old[i])!r}, re-evaluated {float(new[i])!r})",
                                 constraint="ratio_not_one_first_update" if b == 0 else "ratio_not_one_later_update",
                                 update=b, row=i, ratio=float(ratio[i]), old=float(old[i]), new=float(new[i]),
                                 epochs=sw["epochs"], mini=sw["mini"], optimizer=sw["optimizer"], lr=sw["lr"],
-                                normalization=sw["normalization"], train_mode=plan["train_mode"])
+                                normalization=sw["normalization"], train_mode=plan["train_mode"],
+                                max_logit=c["raw"], layout_sensitivity=c["layout"])
                     raise StopRun()
             if b >= 1:
                 run.probe("stepwise_second_update")
